@@ -68,6 +68,10 @@ pub trait Prop: Sync {
     fn exhaustive(&self, _tier: Tier) -> bool {
         false
     }
+    /// libFuzzer campaigns of the thorough tier: (target, runs per job); 8 jobs each
+    fn fuzz_targets(&self) -> Vec<(&'static str, u64)> {
+        vec![]
+    }
 }
 
 pub struct Stage<C> {
@@ -93,6 +97,8 @@ pub struct ExtraOut {
     pub samples: Vec<Value>,
     pub violations: Vec<(Fail, Value)>,
     pub exhaustive: Option<bool>,
+    /// a stage could not be completed (tool failure, timeout): the run exits 2 unless a violation was found
+    pub inconclusive: bool,
 }
 
 pub struct ExtraCtx {
@@ -302,7 +308,26 @@ pub fn run_property<P: Prop>(p: &P, tier: Tier) -> i32 {
     // extra (exhaustive) stages
     let mut exhaustive = p.exhaustive(tier);
     if violations.is_empty() {
-        let ex = p.extra(tier, seed, &ExtraCtx { threads: nthreads });
+        let mut ex = p.extra(tier, seed, &ExtraCtx { threads: nthreads });
+        if tier == Tier::Thorough && ex.violations.is_empty() {
+            let scale_runs = std::env::var("VERIF_FUZZ_RUNS").ok().and_then(|s| s.parse::<f64>().ok()).unwrap_or(1.0);
+            for (target, runs) in p.fuzz_targets() {
+                let c = crate::fuzzstage::Campaign {
+                    id: p.id(),
+                    target,
+                    runs_per_job: ((runs as f64) * scale_runs).ceil() as u64,
+                    jobs: 8,
+                    seed,
+                    max_len: 4096,
+                };
+                if !crate::fuzzstage::run(&c, &mut ex) {
+                    ex.inconclusive = true;
+                }
+                if !ex.violations.is_empty() {
+                    break;
+                }
+            }
+        }
         stats.evaluations += ex.evaluations;
         for (k, v) in ex.counters {
             *stats.counters.entry(k).or_insert(0) += v;
@@ -325,6 +350,9 @@ pub fn run_property<P: Prop>(p: &P, tier: Tier) -> i32 {
             }
         }
         stats.counters.insert("extra_distinct_nontrivial".into(), extra_nt);
+        if ex.inconclusive {
+            stats.counters.insert("inconclusive_stage".into(), 1);
+        }
     }
 
     finish(p.id(), p.level(), tier, seed, t0, stats, violations, &known, p.rule(), p.assumptions(), p.health(tier), exhaustive)
@@ -403,9 +431,14 @@ fn finish(
         let _ = std::fs::create_dir_all(&rdir);
         for v in &reported {
             let h = hash_of(&(v.fail.signature.clone(), v.case_json.to_string()));
-            let path: PathBuf = rdir.join(format!("{id}-{:012x}.json", h & 0xffff_ffff_ffff));
-            let body = json!({"property": id, "signature": v.fail.signature, "message": v.fail.msg, "case": v.case_json});
-            let _ = std::fs::write(&path, serde_json::to_string_pretty(&body).unwrap());
+            let mut path: PathBuf = rdir.join(format!("{id}-{:012x}.json", h & 0xffff_ffff_ffff));
+            if let Some(bin) = v.case_json.as_str().and_then(|s| s.strip_prefix("@bin:")) {
+                // a fuzzer artifact already saved as the replay file
+                path = PathBuf::from(bin);
+            } else {
+                let body = json!({"property": id, "signature": v.fail.signature, "message": v.fail.msg, "case": v.case_json});
+                let _ = std::fs::write(&path, serde_json::to_string_pretty(&body).unwrap());
+            }
             println!("VIOLATION property={} replay={}", id, path.display());
             println!("  signature: {}", v.fail.signature);
             let m: String = v.fail.msg.chars().take(1200).collect();
@@ -425,6 +458,10 @@ fn finish(
     }
     if distinct < 2 {
         eprintln!("INCONCLUSIVE: fewer than two distinct non-trivial cases");
+        unhealthy = true;
+    }
+    if stats.counters.get("inconclusive_stage").is_some() {
+        eprintln!("INCONCLUSIVE: a stage of this run could not be completed");
         unhealthy = true;
     }
     println!(
